@@ -466,6 +466,11 @@ class Engine:
             if assume_inv:
                 self.assume_invariant(r)
             return r
+        if isinstance(ty, TPyDict):
+            d = {}
+            for k, t in ty.fields.items():
+                d[k] = self.fresh_of("%s[%s]" % (name, k), t, assume_inv) if isinstance(t, Ty) else t
+            return self.alloc(("pydict", d))
         if isinstance(ty, TList):
             return self.new_symlist(self.fresh(name, ty))
         if isinstance(ty, TDict):
